@@ -210,7 +210,7 @@ def run_case(case):
                 "viol": [{"key": k, "detail": v} for k, v in viol.items()]}
     from ..runmon import RunMonitor
 
-    m = RunMonitor(case["spec"], oracles={"C19"})
+    m = RunMonitor(case["spec"], oracles={"C19"}, prelude=C.want_prelude(case))
     # count swaps: wrap _re_evaluate_history_ is not needed; detect from the loop trace afterwards
     rec = m.run()
     out = C.slim(rec, case)
